@@ -380,34 +380,29 @@ func retryRules(c *Ctx) {
 	l.add("PATH", "each failed attempt is followed by the computed wait", okw, "waitDuration(ctx, calcExponentialRetry(rate, c)) after the attempt", wcalls...)
 	// 3. unwrap recursion / isFatalError shape
 	if u := c.F("unpackFatalError"); u.ok() {
-		good := true
-		for _, r := range returnsOf(u.fn) {
-			v := r.Results[0]
-			if P.IsCallResult(v, "unpackFatalError", 0) {
-				continue
-			}
-			// the value on the failed side of the fatalError type test
-			{
-				// (the parameter itself, or - in the iterative form - the loop variable that starts as the parameter)
-				tas := an.AllInstrs(u.fn, func(in ssa.Instruction) bool {
-					ta, ok := in.(*ssa.TypeAssert)
-					return ok && ta.CommaOk && ta.X == v && ta.AssertedType.String() == P.Types.Path()+".fatalError"
-				})
-				if len(tas) == 1 {
-					okx := resultOf2(tas[0].(*ssa.TypeAssert), 1)
-					ifs, negs := P.IfsOn(u.fn, func(cond ssa.Value) bool { return cond == okx })
-					if len(ifs) == 1 {
-						fs := 1
-						if negs[0] {
-							fs = 0
+		good := neverFatal(c, u.fn, map[*ssa.Function]bool{})
+		// ... and removes nothing else: the functions of that induction look inside an error only through the fatalError
+		// type test - no Unwrap / errors.As / other call, no assertion to another type - so an ordinary wrapper the
+		// operation put around its cause comes back as it was
+		{
+			var bad []ssa.Instruction
+			fams := map[*ssa.Function]bool{}
+			neverFatal(c, u.fn, fams)
+			for f := range fams {
+				for _, in := range an.AllInstrs(f, func(in ssa.Instruction) bool { return true }) {
+					switch x := in.(type) {
+					case ssa.CallInstruction:
+						if g := x.Common().StaticCallee(); g == nil || !fams[g] {
+							bad = append(bad, in)
 						}
-						if u.onlyViaEdge(r, ifs[0], fs) {
-							continue
+					case *ssa.TypeAssert:
+						if x.AssertedType.String() != P.Types.Path()+".fatalError" {
+							bad = append(bad, in)
 						}
 					}
 				}
 			}
-			good = false
+			u.add("PROV", "only fatal wrappers are removed from the returned error", len(bad) == 0, pickS(len(bad) == 0, "the unwrapping functions contain nothing but the fatalError test and their own recursion", "unpackFatalError looks inside errors other than the fatal wrapper (Unwrap, errors.As, another type test): a wrapper added by the operation itself would be stripped from the error the caller receives"), bad...)
 		}
 		u.add("PATH", "unpackFatalError never returns a fatal wrapper (induction over the recursion)", good, pickS(good, "every return is the recursive call or the value on the failed side of the fatalError test", "unpackFatalError can return a value that is still a fatalError"), nil)
 	}
@@ -471,6 +466,94 @@ func init() {
 			floorKey("waitDuration", 2, "/init$waitDuration1/"),
 		},
 	})
+}
+
+// neverFatal: no return of fn hands out a fatalError, by induction over the recursion. Every returned value is
+//   - the result of a function of the package for which the same holds (assumed for the functions under proof), or
+//   - the value - or another read of the same variable or field - on the failed side of the only fatalError type test.
+func neverFatal(c *Ctx, fn *ssa.Function, assumed map[*ssa.Function]bool) bool {
+	P := c.P
+	if fn == nil || len(fn.Blocks) == 0 || fn.Signature.Results().Len() != 1 {
+		return false
+	}
+	assumed[fn] = true
+	q := &fq{c: c, fn: fn, name: an.FuncName(fn)}
+	for _, r := range returnsOf(fn) {
+		if len(r.Results) != 1 {
+			return false
+		}
+		v := r.Results[0]
+		if call, ok := v.(*ssa.Call); ok {
+			if g := call.Call.StaticCallee(); g != nil && g.Pkg == fn.Pkg {
+				if assumed[g] || neverFatal(c, g, assumed) {
+					continue
+				}
+				return false
+			}
+		}
+		if P.IsCallResult(v, an.FuncName(fn), 0) {
+			continue
+		}
+		tas := an.AllInstrs(fn, func(in ssa.Instruction) bool {
+			ta, ok := in.(*ssa.TypeAssert)
+			return ok && ta.CommaOk && (ta.X == v || sameFieldRead(ta.X, v)) && ta.AssertedType.String() == P.Types.Path()+".fatalError"
+		})
+		if len(tas) != 1 {
+			return false
+		}
+		okx := resultOf2(tas[0].(*ssa.TypeAssert), 1)
+		ifs, negs := P.IfsOn(fn, func(cond ssa.Value) bool { return cond == okx })
+		if len(ifs) != 1 {
+			return false
+		}
+		fs := 1
+		if negs[0] {
+			fs = 0
+		}
+		if !q.onlyViaEdge(r, ifs[0], fs) {
+			return false
+		}
+	}
+	return true
+}
+
+// sameFieldRead: two loads of the same field of the same never-rewritten local (a spilled value receiver).
+func sameFieldRead(a, b ssa.Value) bool {
+	la, oka := isLoad(a)
+	lb, okb := isLoad(b)
+	if !oka || !okb {
+		return false
+	}
+	fa, oka := la.X.(*ssa.FieldAddr)
+	fb, okb := lb.X.(*ssa.FieldAddr)
+	if !oka || !okb || fa.Field != fb.Field || fa.X != fb.X {
+		return false
+	}
+	al, ok := fa.X.(*ssa.Alloc)
+	if !ok {
+		return false
+	}
+	// the local is written once (the spill of the parameter) and its address goes nowhere else
+	stores := 0
+	for _, ref := range *al.Referrers() {
+		switch x := ref.(type) {
+		case *ssa.Store:
+			if x.Addr != ssa.Value(al) {
+				return false
+			}
+			stores++
+		case *ssa.FieldAddr:
+			for _, r2 := range *x.Referrers() {
+				if u, isU := r2.(*ssa.UnOp); !isU || u.Op != token.MUL {
+					return false
+				}
+			}
+		case *ssa.DebugRef:
+		default:
+			return false
+		}
+	}
+	return stores == 1
 }
 
 // sameRead: the same value, or two reads of the same captured variable.
